@@ -31,9 +31,11 @@ class C07(Check):
               "return templates consume what .format supplies",
         "G5": "the Python unpack template is shape-correct for a single variable (the target is a tuple/list pattern)",
         "G6": "an untranslatable function makes generation raise",
+        "G8": "derivative sums: d<var>dt = sum over the variable's reactions of coefficient * rate (numeric and computed coefficients alike, "
+              "accumulated with +), built from every (reaction, variable) stoichiometry entry",
         "G7": "the four back ends agree on free-parameter handling (removed from the assignments, appended to the signature)",
     }
-    floors = {"G1": 2, "G2": 1, "G3": 2, "G4": 12, "G5": 2, "G6": 3, "G7": 4}
+    floors = {"G1": 2, "G2": 1, "G3": 2, "G4": 12, "G5": 2, "G6": 3, "G7": 4, "G8": 2}
     decided = [
         "generated functions never read a derived quantity / reaction / parameter before it is assigned",
         "template well-formedness at the level of format fields; Python unpacking shape",
@@ -191,6 +193,21 @@ class C07(Check):
                 self.violated("G6", MOD, GEN, cons, c, "a failed translation does not make generation raise",
                               witness="a rate law using an unsupported construct is emitted as `None`")
         st = self.prog.module("meta/sympy_tools.py").func("stoichiometries_to_sympy")
+        adds = [a for a in ast.walk(st) if isinstance(a, ast.Assign) and norm(a.targets[0]) == "expr" and isinstance(a.value, ast.BinOp)]
+        want = {"expr + sympy_fn * sympy.Symbol(rxn_name)", "expr + rxn_stoich * sympy.Symbol(rxn_name)"}
+        got = {norm(a.value) for a in adds}
+        if got == want:
+            self.holds("G8", "meta/sympy_tools.py", st.name, "sum-of-coefficient-times-rate", adds[0], "expr accumulates + coefficient * Symbol(reaction) for computed and numeric coefficients")
+        else:
+            self.violated("G8", "meta/sympy_tools.py", st.name, "sum-of-coefficient-times-rate", adds[0] if adds else st, f"derivative sums are built from {sorted(got)} instead of + coefficient * rate",
+                          witness="the generated model returns derivatives with a flipped sign / without a coefficient")
+        fill = [l for l in body if isinstance(l, ast.For) and norm(l.iter) == "model.get_raw_reactions().items()" and "diff_eqs" in norm(l)]
+        okf = fill and "for var_name, factor in rxn.stoichiometry.items():" in norm(fill[0]).replace("\n", " ") and "diff_eqs.setdefault(var_name, {})[rxn_name] = factor" in norm(fill[0]) \
+            and not any(isinstance(x, (ast.If, ast.Continue, ast.Break)) for x in ast.walk(fill[0]))
+        if okf:
+            self.holds("G8", MOD, GEN, "every-stoichiometry-entry", fill[0], "diff_eqs[variable][reaction] = coefficient for every entry of every reaction")
+        else:
+            self.violated("G8", MOD, GEN, "every-stoichiometry-entry", fill[0] if fill else gen, "not every (reaction, variable) stoichiometry entry reaches the derivative sums")
         sc2 = Scope(st)
         for c in [c for c in walk_no_nested(st) if isinstance(c, ast.Call) and dotted(c.func).split(".")[-1] == "fn_to_sympy"]:
             ok, why = call_site_visibility(c, sc2, st)
@@ -209,6 +226,7 @@ class C07(Check):
             Variant("ts-template-drops-k", MOD, "generate_model_code_ts", "'    let {k}: number = {v};'", "'    let k: number = {v};'", expect="G4|", quick=True),
             Variant("rs-return-template-no-field", MOD, "generate_model_code_rs", "return_template='    return [{}]'", "return_template='    return []'", expect="G4|"),
             Variant("reaction-none-emitted", MOD, GEN, "            if expr is None:\n                msg = f\"Unable to parse fn for reaction value '{name}'\"\n                raise ValueError(msg)\n", "", expect="G6|", quick=True),
+            Variant("derivative-sum-sign", "meta/sympy_tools.py", "stoichiometries_to_sympy", "expr = expr + rxn_stoich * sympy.Symbol(rxn_name)", "expr = expr - rxn_stoich * sympy.Symbol(rxn_name)", expect="G8|"),
             Variant("rust-ignores-free-parameters", MOD, "generate_model_code_rs", "free_parameters=free_parameters", "free_parameters=None", expect="G7|"),
             Variant("free-parameters-still-assigned", MOD, GEN, "    if free_parameters is not None:\n        for key in free_parameters:\n            parameters.pop(key)\n", "", expect="G7|"),
         ]
